@@ -69,34 +69,6 @@ static void same_addresses(const Vec& v, const Snap& s, usize upto, int id)
     }
 }
 
-// discriminator of known finding KF-erase-overlap (DESIGN.md section 7): erase on a varying-size list of non-trivially
-// relocatable types where an element behind the erased ones is larger than the bytes that were erased
-template <class... P>
-constexpr bool all_trivial(L<P...>)
-{
-    return (std::is_trivially_copyable_v<typename PI<P>::V> && ...);
-}
-static bool erase_overlaps(const M& m, usize first, usize last)
-{
-    if (LT::NVARY == 0 || all_trivial(LT{}) || first == last)
-    {
-        return false;
-    }
-    usize erased = 0, worst = 0;
-    for (usize i = 0; i < KMAX; ++i)
-    {
-        if (i >= first && i < last)
-        {
-            erased += payload_bytes<LT>(m.e[i]);
-        }
-        else if (i >= last && i < m.n && payload_bytes<LT>(m.e[i]) > worst)
-        {
-            worst = payload_bytes<LT>(m.e[i]);
-        }
-    }
-    return worst > erased;
-}
-
 static bool has_room(const M& m, const MElem<LT::N>& e)
 {
     return m.n < m.cap && live_payload<LT>(m) + payload_bytes<LT>(e) <= m.budget;
@@ -147,7 +119,7 @@ static void step(Vec& v, M& m, int op, int base)
             verif_assume(pos < m.n);
             pos = verif_fork(pos);
 #ifdef KF_ERASE_OVERLAP
-            verif_assume(!erase_overlaps(m, pos, pos + 1));
+            verif_assume(!erase_overlaps<LT>(m, pos, pos + 1));
 #endif
             const Snap s = snap(v, m);
             auto it = v.erase(v.begin() + pos);
@@ -164,7 +136,7 @@ static void step(Vec& v, M& m, int op, int base)
             first = verif_fork(first);
             last = verif_fork(last);
 #ifdef KF_ERASE_OVERLAP
-            verif_assume(!erase_overlaps(m, first, last));
+            verif_assume(!erase_overlaps<LT>(m, first, last));
 #endif
             const Snap s = snap(v, m);
             auto it = v.erase(v.begin() + first, v.begin() + last);
@@ -201,6 +173,7 @@ static void step(Vec& v, M& m, int op, int base)
         default: break;
     }
     inv<LT>(v, m, base);
+    verif_assert(verif_live_objs() == tr_count<LT>(m), base + 97);  // C06
     // C02/C18: the data range is inside the block, ordered, and no larger than memory_consumption()
     const Vec& cv = v;
     verif_assert(addr_of(cv.data_end()) >= addr_of(cv.data_begin()), base + 7);
